@@ -358,6 +358,28 @@ in.txt
 plain.txt
 :
 ";
+fn fan_rules() -> String
+{
+    let mut out = String::from("base.txt\n:\nsrc.txt\n:\nmycat\nsrc.txt\nhid.txt\nbase.txt\n:\n\n");
+    for i in 0..8 { out.push_str(&format!("part{}.txt\n:\nbase.txt\nextra.txt\n:\nmycat\nbase.txt\nextra.txt\npart{}.txt\n:\n\n", i, i)); }
+    out.push_str("join.txt\n:\n");
+    for i in 0..8 { out.push_str(&format!("part{}.txt\n", i)); }
+    out.push_str(":\nmycat\n");
+    for i in 0..8 { out.push_str(&format!("part{}.txt\n", i)); }
+    out.push_str("join.txt\n:\n\n");
+    for i in 0..5 { let src = if i == 0 { "join.txt".to_string() } else { format!("tail{}.txt", i - 1) }; out.push_str(&format!("tail{}.txt\n:\n{}\n:\nmycat\n{}\ntail{}.txt\n:\n\n", i, src, src, i)); }
+    out
+}
+fn fan_targets() -> Vec<&'static str>
+{
+    let mut v : Vec<&'static str> = vec!["base.txt", "join.txt"];
+    for i in 0..8 { v.push(Box::leak(format!("part{}.txt", i).into_boxed_str())); }
+    for i in 0..5 { v.push(Box::leak(format!("tail{}.txt", i).into_boxed_str())); }
+    v
+}
+/*  (the producer's command reads hid.txt, which no rule declares: with it the command works, without it the command fails) */
+fn setup_fan(s: &mut FakeSystem) { write_str_to_file(s, "src.txt", "source\n").unwrap(); write_str_to_file(s, "hid.txt", "hidden\n").unwrap(); write_str_to_file(s, "extra.txt", "extra\n").unwrap(); }
+fn setup_fan_broken(s: &mut FakeSystem) { write_str_to_file(s, "src.txt", "source\n").unwrap(); write_str_to_file(s, "extra.txt", "extra\n").unwrap(); }
 fn setup_in(s: &mut FakeSystem) { write_str_to_file(s, "in.txt", "input\n").unwrap(); }
 /*  a rule with two missing leaves and a slow one between them in receive order, and a dependent: one error per missing leaf */
 const RULES_FANIN : &str = "\
@@ -424,6 +446,14 @@ fn verif_sched_corpora()
                &[("create_dir", "#1"), ("create_dir", "#2"), ("open", "a.txt"), ("open", "b.txt"), ("rename", "out/apples.txt")], &["out/apples.txt", "out/bananas.txt"], None, &[], &mut t);
     run_corpus("two independent rules bring their targets back into one directory", RULES_OUTDIR, setup_outdir_kept,
                &[("create_dir", "#1"), ("open", "a.txt"), ("rename", "out/apples.txt"), ("rename", "out/bananas.txt")], &["out/apples.txt", "out/bananas.txt"], Some("Ok"), &[], &mut t);
+    /*  a wider and deeper graph: one producer, eight consumers, a rule that needs all eight, and a chain of five behind it */
+    {
+        let rules : &'static str = Box::leak(fan_rules().into_boxed_str());
+        let targets : Vec<&'static str> = fan_targets();
+        run_corpus("one producer, eight consumers, a join and a chain", rules, setup_fan, &[("command", "base.txt"), ("command", "part3.txt"), ("command", "part6.txt"), ("open", "src.txt"), ("command", "join.txt")], &targets, Some("Ok"), &[], &mut t);
+        run_corpus("the same with the producer's command failing", rules, setup_fan_broken, &[("command", "part3.txt"), ("open", "src.txt"), ("open", "extra.txt")], &targets, None,
+                   &["mycat base.txt extra.txt part0.txt", "mycat base.txt extra.txt part7.txt", "mycat part0.txt", "mycat join.txt"], &mut t);
+    }
     /*  odd bytes in path names: whatever the verdict, build() and clean() return it */
     run_corpus("a target path with a NUL byte", RULES_NUL_TARGET, setup_in, &[], &["nul\0target.txt"], None, &[], &mut t);
     run_corpus("a missing source path with a NUL byte", RULES_NUL_SOURCE, setup_in, &[], &["plain.txt"], None, &[], &mut t);
